@@ -8,7 +8,7 @@ import sys
 import tempfile
 import threading
 import corr
-from wclib import import_impl, seeded_rng, Model, enc, dec
+from wclib import import_impl, seeded_rng, Model, enc, dec, REPO as REPO_PATH
 
 RULE = ('proof: Properties/C19.v (LRU model: every call history returns the pure values; every interleaving of atomic '
         'lookup/store/clear events keeps the cache consistent; matcher equality/rebuild). correspondence: every regex '
@@ -398,6 +398,59 @@ def run(ctx):
     finally:
         shutil.rmtree(tmp, ignore_errors=True)
     ctx.counted('histories, threads, sharing', evals, len(collide), [{'call': list(make_call())}, {'call': list(make_call())}])
+    # the same call made again and again gives the same answer and equal, hash-equal matchers - whatever keyword arguments and
+    # flags it combines (exclude= with NODIR, NEGATE, limits close to the pattern count, MATCHBASE, REALPATH ...)
+    nrep = 0
+    rep_names = ['a', 'b1', 'a/', 'b/x', 'c.txt', 'b2/']
+    for api_ in (Gm, Fm):
+        for pat_, fl_, kw_ in (('**', Gm.GLOBSTAR | Gm.NODIR, {'exclude': 'b*'}), ('*', Gm.NODIR, {'exclude': ['b*', 'c*'], 'limit': 4}),
+                               (['*', '!b*'], Gm.NEGATE | Gm.NODIR, {}), ('*', 0, {'exclude': 'b*', 'limit': 2}), ('a|b*', Gm.SPLIT | Gm.NODIR, {'exclude': 'c*|d*', 'limit': 5}),
+                               ('**/*', Gm.GLOBSTAR | Gm.MATCHBASE | Gm.NODIR, {'exclude': '**/x'})):
+            if api_ is Fm:
+                fl_ = fl_ & ~(Gm.GLOBSTAR | Gm.NODIR | Gm.MATCHBASE)
+            first = None
+            for k in range(7):
+                nrep += 1
+                try:
+                    m_ = api_.compile(pat_, flags=fl_, **kw_)
+                    now = ('ok', [m_.match(n_) for n_ in rep_names], (Gm.globfilter if api_ is Gm else Fm.filter)(rep_names, pat_, flags=fl_, **kw_),
+                           [list(x) for x in api_.translate(pat_, flags=fl_, **kw_)])
+                except Exception as ex_:
+                    m_, now = None, ('EXC ' + type(ex_).__name__,)
+                if first is None:
+                    first = (m_, now)
+                elif now != first[1] or (m_ is not None and (m_ != first[0] or hash(m_) != hash(first[0]))):
+                    ctx.counterexample('%s.compile/filter/translate(%r, %s%s): call number %d answers %s, the first call %s%s' % (
+                        api_.__name__.split('.')[-1], pat_, corr.flag_names(fl_), ''.join(', %s=%r' % kv for kv in kw_.items()), k + 1, str(now)[:120], str(first[1])[:120],
+                        '' if m_ is None or m_ == first[0] else ' (the matchers compare unequal)'),
+                        {'pattern': pat_, 'flags': corr.flag_names(fl_), 'kwargs': {a: repr(b) for a, b in kw_.items()}, 'call_number': k + 1})
+                    break
+    ctx.counted('the same call repeated', nrep, nrep // 2, [{'pattern': '**', 'flags': 'GLOBSTAR|NODIR', 'exclude': 'b*'}])
+    # a pickled matcher means the same in another interpreter: loaded under a different hash seed it equals, and hashes like, the
+    # matcher compiled there
+    import subprocess as _sp
+    import pickle as _pk
+    prog_dump = ("import sys,pickle,binascii; sys.path.insert(0, %r)\n"
+                 "from wcmatch import glob as G, fnmatch as F\n"
+                 "ms=[G.compile('**/*.txt', flags=G.GLOBSTAR), G.compile('*', flags=G.NODIR, exclude='b*'), G.compile(b'*.py'), F.compile('a*|b*', flags=F.SPLIT), F.compile('*', exclude='x')]\n"
+                 "print(binascii.hexlify(pickle.dumps(ms)).decode())") % REPO_PATH
+    prog_load = ("import sys,pickle,binascii; sys.path.insert(0, %r)\n"
+                 "from wcmatch import glob as G, fnmatch as F\n"
+                 "ms=pickle.loads(binascii.unhexlify(sys.stdin.read().strip()))\n"
+                 "fresh=[G.compile('**/*.txt', flags=G.GLOBSTAR), G.compile('*', flags=G.NODIR, exclude='b*'), G.compile(b'*.py'), F.compile('a*|b*', flags=F.SPLIT), F.compile('*', exclude='x')]\n"
+                 "print([(a==b, hash(a)==hash(b), len({a,b})) for a,b in zip(ms,fresh)])") % REPO_PATH
+    try:
+        out1 = _sp.run([sys.executable, '-c', prog_dump], env=dict(os.environ, PYTHONHASHSEED='11'), capture_output=True, text=True, timeout=120)
+        out2 = _sp.run([sys.executable, '-c', prog_load], input=out1.stdout, env=dict(os.environ, PYTHONHASHSEED='22'), capture_output=True, text=True, timeout=120)
+        evals += 5
+        verdicts = eval(out2.stdout.strip()) if out2.returncode == 0 and out2.stdout.strip() else None
+        if verdicts is None:
+            ctx.counterexample('matchers pickled in one interpreter could not be loaded in another: %s' % (out2.stderr or out1.stderr)[-300:], {'stage': 'pickle across interpreters'})
+        elif any(v != (True, True, 1) for v in verdicts):
+            ctx.counterexample('matchers pickled under PYTHONHASHSEED=11 and loaded under PYTHONHASHSEED=22 vs the matchers compiled there: (equal, hash-equal, size of the set of both) = %r' % (verdicts,),
+                               {'stage': 'pickle across interpreters', 'verdicts': repr(verdicts)})
+    except Exception as ex_:
+        ctx.counterexample('pickle across interpreters raised %s' % type(ex_).__name__, {'stage': 'pickle across interpreters'})
     # the directory walker object, too, answers from its arguments and the file system only: any number of runs of one
     # object, interleaved with runs of another one, give the files and the skipped count of a fresh object
     import trees as _trees
